@@ -119,7 +119,10 @@ class Translator:
     def tok(self, rep):
         if rep not in self.consts_table:
             self.consts_table.append(rep)
-        return "(VTok %d%%Z)" % self.consts_table.index(rep)
+        i = self.consts_table.index(rep)
+        if rep.startswith("-") and rep[1:2].isdigit():
+            return "(VTok (-%d)%%Z)" % i        # negative numbers carry negative tokens (vsign)
+        return "(VTok %d%%Z)" % i
 
     def mro(self, name):
         out = []
@@ -240,6 +243,7 @@ class Translator:
                 i = env["fieldnames"].index(fld)
                 x, r = self.fresh("p"), self.fresh("l")
                 en = self.copy(env)
+                en["dirty"] = "self.%s.pop" % fld
                 en["fields"][i] = r
                 return "match vpop %s with None => None | Some (%s, %s) => %s end" % (env["fields"][i], x, r, k(x, en))
             if isinstance(f, ast.Attribute) and f.attr == "is_tensor" and isinstance(f.value, ast.Name) and f.value.id == "torch":
@@ -254,6 +258,20 @@ class Translator:
                 isinstance(e.comparators[0], ast.Constant) and e.comparators[0].value is None:
             pos = isinstance(e.ops[0], ast.Is)
             return self.expr(e.left, env, lambda v, en: k("(VBool (%sis_none %s))" % ("" if pos else "negb (", v) + ("" if pos else ")"), en))
+        if isinstance(e, ast.Compare) and len(e.ops) == 1 and isinstance(e.ops[0], (ast.Lt, ast.LtE, ast.Gt, ast.GtE)) and \
+                isinstance(e.comparators[0], ast.Constant) and isinstance(e.comparators[0].value, (int, float)) and \
+                not isinstance(e.comparators[0].value, bool) and e.comparators[0].value == 0:
+            # x < 0, x <= 0, x > 0, x >= 0 (argument validation): decided by the SIGN of the value (negative numbers carry
+            # negative tokens, zero is token 0); comparing None raises TypeError = a refusal like any other raise
+            op = {ast.Lt: "ltb", ast.LtE: "leb", ast.Gt: "gtb", ast.GtE: "geb"}[type(e.ops[0])]
+
+            def ks(v, en):
+                self.no_cls(v)
+                if en.get("dirty"):
+                    raise Untranslatable("comparison that may raise after an assignment on the same path (%s)" % en["dirty"])
+                sg = self.fresh("sg")
+                return "match vsign %s with None => None | Some %s => %s end" % (v, sg, k("(VBool (Z.%s %s 0))" % (op, sg), en))
+            return self.expr(e.left, env, ks)
         if isinstance(e, ast.Compare) and len(e.ops) == 1 and isinstance(e.ops[0], (ast.Eq,)):
             return self.expr(e.left, env, lambda a, en: self.expr(e.comparators[0], en, lambda b, en2: k(self.fold_eq(a, b), en2)))
         raise Untranslatable("expression %s" % ast.dump(e)[:100])
@@ -385,6 +403,11 @@ class Translator:
                 return ret("VNone", env)      # `with ctx as x`: the model does not use the value of __enter__
             return self.expr(st.value, env, ret)
         if isinstance(st, ast.Raise):
+            # the model treats a raising construct / enter / exit as ALL-OR-NOTHING (None = nothing happened); that is only
+            # faithful when no class slot, cache or (inside __enter__/__exit__) object field was written before on this path
+            if env.get("dirty"):
+                raise Untranslatable("raise after an assignment on the same path (%s): a refused construct/enter/exit would "
+                                     "leave settings half-changed" % env["dirty"])
             return "None"
         if isinstance(st, ast.If):
             return self.cond(st.test, env,
@@ -424,6 +447,8 @@ class Translator:
                     def k(v, en):
                         x = self.fresh("f")
                         en = self.copy(en)
+                        if en.get("top") in ("__enter__", "__exit__"):
+                            en["dirty"] = "self.%s written" % t.attr
                         en["fields"][i] = x
                         return "(let %s := %s in %s)" % (x, v, nxt(en))
                     return self.expr(st.value, env, k)
@@ -432,6 +457,7 @@ class Translator:
                         def k(v, en):
                             x = self.fresh("s")
                             en = self.copy(en)
+                            en["dirty"] = "class attribute %s written" % t.attr
                             en["sv"][SLOTS[t.attr]] = x
                             return "(let %s := %s in %s)" % (x, v, nxt(en))
                         return self.expr(st.value, env, k)
@@ -440,6 +466,7 @@ class Translator:
                         self.resets.setdefault(env["cls"], set()).add(t.attr)
                         en = self.copy(env)
                         en["resets"] = frozenset(env.get("resets", frozenset()) | {t.attr})
+                        en["dirty"] = "class attribute %s written" % t.attr
                         return nxt(en)
                     raise Untranslatable("write to non-slot class attribute %s" % t.attr)
             raise Untranslatable("assignment %s" % ast.dump(st)[:100])
@@ -456,6 +483,7 @@ class Translator:
                 def k(v, en):
                     x = self.fresh("l")
                     en2 = self.copy(en)
+                    en2["dirty"] = "self.%s.append" % fld
                     en2["fields"][i] = x
                     return "match vappend %s %s with None => None | Some %s => %s end" % (en["fields"][i], v, x, nxt(en2))
                 return self.expr(c.args[0], env, k)
